@@ -229,10 +229,11 @@ class PCase:
     __slots__ = ("src", "target", "project", "payload", "im", "mo", "mo_rev", "skipped", "diff")
 
 
-def run_pipeline_stage(res, rng, n, model, cli_sample=6, hostile=0.02, keep=None, curated=True, class_targets=False):
+def run_pipeline_stage(res, rng, n, model, cli_sample=6, hostile=0.02, keep=None, curated=True, class_targets=False, extra=None):
     work = list(filegen.PIPELINE_CURATED) if curated else []
     if class_targets:
         work += list(filegen.PIPELINE_CURATED_INSTANCES)
+    work += list(extra or [])       # (additive) further (target, source) modules of the caller
     for _ in range(n):
         src, target = filegen.gen_pipeline_module(rng, hostile=hostile, class_targets=class_targets)
         work.append((target, src))
